@@ -95,11 +95,40 @@ CLAIMED = {
                     "(ALT-POS) and the sheltered pending error is restored on all paths (ALT-LINEAR)",
             "design_ref": "§5 C17", "note": NOTE,
             "technique": "static automaton conformance + linear-token/position-provenance analysis"},
+
+    "C03": {"text": "ENTRY: parse_with_state/check_with_state run the grammar exactly once as ThenIgnore<&Self, End<I,E>> (type-resolved "
+                    "receiver built by then_ignore(self, end())), push the taken pending error on exactly the no-output path, build the "
+                    "result from this parse's error list; into_result is Ok only under errs.is_empty() via output.ok_or; accessors read "
+                    "the two private fields; ParseResult::new crate-private with the entry points as only callers; lazy() = "
+                    "then_ignore(any().repeated()); plus the contract automata of End / ThenIgnore / Any / Repeated",
+            "design_ref": "§5 C03", "note": NOTE,
+            "technique": "static must-pass-through / path rules + type-resolved receiver check + automaton conformance"},
+    "C07": {"text": "capture sites as effects of the combinator automata: every span/slice handed to user code (to_slice, to_span, map_with, "
+                    "try_map(_with), validate, select, filter errors, foldl_with/foldr_with, Pratt folds) starts at the cursor where the "
+                    "measured child started and ends at the current cursor, with per-item cursors taken in the same loop iteration and "
+                    "operators told the expression start (contract conformance); SPAN-PROV: path-sensitive provenance of "
+                    "Input::span/span_from/slice/slice_from of all 9 input implementations equals the reviewed table (start<-range.start, "
+                    "end<-range.end / last token end / eoi); READER-SIB: next/next_maybe/next_ref of one input record the same cursor "
+                    "sub-fields; &str/grapheme cursors advance by the decoded item's length",
+            "design_ref": "§4.3 RANGE-PROV, §5 C07", "note": NOTE,
+            "technique": "static provenance analysis (flow- and path-sensitive) + automaton conformance"},
+    "C10": {"text": "structural clauses only: sibling agreement of the token readers of each input type (READER-SIB), span/slice bound "
+                    "provenance per input (SPAN-PROV), Stream pulls from its iterator at one guarded site, only appends to its cache and "
+                    "serves by index (STREAM: each item pulled at most once, in order, independent of backtracking), graphemes(true) "
+                    "everywhere, IoInput re-seeks iff cursor != reader position (INPUT-MISC)",
+            "design_ref": "§4.3 INPUT-SIB, §5 C10", "note": NOTE + "; equality of results across representations is a runtime relation and is declined",
+            "technique": "static sibling-agreement + who-may-touch + guard-provenance rules over MIR"},
+    "C14": {"text": "structural clauses only: the three text::Char impls agree (newline tables: the seven documented code points / their "
+                    "ASCII subset / plus CRLF; inline whitespace; digit_zero; u8 delegates digit/ident classification to char) (CHAR-SIB); "
+                    "automaton conformance of newline() (CR then optional LF in one match; otherwise one is_newline token), Padded "
+                    "(skip_while both sides), regex (whole-slice haystack, Anchored::Yes, range(cursor..), advance by match length); "
+                    "skip_while stops before the first non-matching token and hooks consumed ones (HOOKS-TOKEN)",
+            "design_ref": "§4.3 CHAR-SIB, §5 C14", "note": NOTE + "; that int/digits/ident/keyword accept exactly their documented languages is declined (value predicates over composed grammars)",
+            "technique": "static sibling-table agreement (literal constants incl. promoted tables) + automaton conformance"},
 }
 
 _PENDING = "check under construction in this round (static rule designed in DESIGN §5, not yet registered)"
-NOT_APPLICABLE = {p: _PENDING for p in
-                  ["C03", "C07", "C10", "C14"]}
+NOT_APPLICABLE = {}
 
 NOTES = ("All checks are static: they read /repo's current sources through a rustc_private driver (facts cached by "
          "content hash of src/**, Cargo.toml, Cargo.lock) and never run a chumsky parser. Exit 2 + CHECKER-ERROR = the "
